@@ -162,6 +162,12 @@ def rule_fields(ck):
             # a distribution is written as a sequence whatever its length: one simulation / one synthetic catalog gives one value
             scal = [a_ for a_ in phi_alternatives(v) if isinstance(strip_shape(a_), ast.Subscript) or
                     (isinstance(a_, ast.Call) and (call_name(a_) or '').split('.')[-1] in ('item', 'float', 'int', 'squeeze', 'max', 'min', 'sum', 'mean'))]
+            conv = [a_ for a_ in phi_alternatives(v) if any(isinstance(x, ast.Call) and (call_name(x) or '').split('.')[-1] in ('asarray', 'array', 'asanyarray', 'fromiter')
+                                                           for x in ast.walk(a_))]
+            if good and conv:
+                o.fail('the test distribution is written as `%s` on one path: numpy gives a sequence one element type, so a pair such as '
+                       "('poisson', 10.04) comes back as two strings; list(...) keeps each element as it is" % u(conv[0])[:60])
+                continue
             if good and scal:
                 o.fail('the test distribution is written as `%s` on one path: a one-element distribution comes back as a bare number' % u(scal[0])[:60])
                 continue
@@ -250,6 +256,18 @@ def rule_json(ck):
         withs = [n for n in all_nodes(s) if isinstance(n, ast.With) and any(x is dumps[0] for x in ast.walk(n))]
         good = bool(withs) and 'open(self.url, \'w\')' in u(withs[0].items[0].context_expr)
     (o.ok("json.dump(data, f, default=...) into self.url") if good else o.fail('save does not json.dump the given dictionary (with a default= handler) into the repository url'))
+    # nan and +-inf are legitimate statistics ('not-valid' results, an event in a zero-rate bin): they are written (allow_nan stays on) and an
+    # error of the dump is not swallowed - write_json ignores the return value, so a half-written file would pass for a written one
+    on = ck.ob('C18-D4.nonfinite', s, 'non-finite statistics are written, dump errors are raised', dumps[0] if dumps else s.node)
+    an = kw(dumps[0], 'allow_nan') if dumps else None
+    swallow = [h for h in all_nodes(s) if isinstance(h, ast.ExceptHandler) and not any(isinstance(x, ast.Raise) for st_ in h.body for x in ast.walk(st_))
+               and any(x is dumps[0] for t_ in all_nodes(s) if isinstance(t_, ast.Try) and h in t_.handlers for st_ in t_.body for x in ast.walk(st_))] if dumps else []
+    if an is not None and const_value(an) is not True:
+        on.fail('json.dump(..., allow_nan=%s): a result whose statistic is nan or -inf cannot be written' % u(an))
+    elif swallow:
+        on.fail('`except %s` around the dump does not raise: a failed write leaves a truncated file and reports nothing' % (u(swallow[0].type) if swallow[0].type is not None else ''))
+    else:
+        on.ok()
     # numbers stay numbers: result fields are filled from numpy reductions (min_mw = numpy.min(magnitudes), counts, sums); a numpy
     # scalar that is not a float subclass (any integer dtype, float32) is unknown to json and goes through the default handler
     srcs = 0
@@ -448,6 +466,15 @@ def _rule_region_fromdict(ck):
     if dhe is None or "adict.get('dh'" not in u(dhe):
         probs.append('dh is not passed through from the dictionary (a re-inferred spacing can differ)')
     (o.fail('; '.join(probs)) if probs else o.ok('from_origins([[lon, lat] ...] in list order, dh=adict[dh])'))
+    # ... and a dictionary without the spacing is refused: from_origins would infer it from the first two stored cells, i.e. from the order
+    # the cells happen to be listed in
+    od = ck.ob('C18-D5.dhrequired', f, 'a dictionary without dh is refused', c)
+    cfg_ = f.cfg
+    guards = [n for n in all_nodes(f) if isinstance(n, ast.If) and 'dh' in u(n.test) and 'None' in u(n.test) and any(isinstance(x, ast.Raise) for x in n.body)]
+    okd = any(cfg_.node_of(g_) is not None and cfg_.stmt_node_containing(c) is not None and cfg_.dominates(cfg_.node_of(g_), cfg_.stmt_node_containing(c)) for g_ in guards)
+    (od.ok('raises before from_origins') if okd else
+     od.fail('from_dict hands a missing dh (None) to from_origins, which takes the spacing from the first two origins as stored: the same cells '
+             'in another order rebuild another lattice'))
     # region_loader of catalogs knows every class writing a class_id
     cf = P.func('csep.core.catalogs.AbstractBaseCatalog.from_dict')
     tabs = [n for n in all_nodes(cf) if isinstance(n, ast.Assign) and isinstance(n.value, ast.Dict)]
